@@ -62,3 +62,15 @@ def carr(case, xs):
     if kind == "f64":
         return arr(xs)
     return carriers.data(xs, kind, case.get("junk", 0.0))
+
+
+def sint(v):
+    """Output values as ints when they are integral numbers; anything else (NaN, strings, None) is kept as it is so that a
+    strange output becomes a reported difference instead of an exception inside the harness."""
+    try:
+        f = float(v)
+        if f == f and f == int(f):
+            return int(f)
+    except (TypeError, ValueError, OverflowError):
+        pass
+    return v if (v is None or isinstance(v, (int, float, str, bool))) else repr(v)
